@@ -157,6 +157,89 @@ def totalOps (jobs : Jobs) : Nat := (jobs.map List.length).sum
 def dispatchRule (r : Rule) (jobs : Jobs) : List Entry :=
   (dispatchWith jobs (choose r jobs) (totalOps jobs) DState.init).sched
 
+/-! ### The local search (mirror of the loop of `solve_job_shop`, `_try_swap`, `_rebuild_schedule`)
+
+The RNG appears only as the list of machines drawn by `rng.randrange(n_machines)`. -/
+
+/-- `(j, op_idx)` of all operations, job-major (the order of the comprehension loops). -/
+def allOps (jobs : Jobs) : List (Nat × Nat) :=
+  (List.range jobs.length).flatMap fun j => (List.range (jobs.ops j).length).map fun k => (j, k)
+
+/-- `ops_on_machine` before sorting. -/
+def opsOn (jobs : Jobs) (m : Nat) : List (Nat × Nat) :=
+  (allOps jobs).filter fun jk => jobs.mach jk.1 jk.2 == m
+
+/-- `schedule[(j, op)][0]`. -/
+def startOf (S : List Entry) (jk : Nat × Nat) : Int :=
+  match S.find? fun e => e.key == jk with
+  | some e => e.start
+  | none => 0
+
+/-- insertion into a sorted list, before the first element that is not smaller -/
+def insSorted {α} (le : α → α → Bool) (x : α) : List α → List α
+  | [] => [x]
+  | y :: ys => if le x y then x :: y :: ys else y :: insSorted le x ys
+
+/-- stable insertion sort (structural, so that it evaluates in the kernel as well) -/
+def stableSort {α} (le : α → α → Bool) (l : List α) : List α := l.foldr (insSorted le) []
+
+/-- `ops_on_machine.sort(key=start)` (stable). -/
+def byStart (S : List Entry) (ops : List (Nat × Nat)) : List (Nat × Nat) :=
+  stableSort (fun a b => decide (startOf S a ≤ startOf S b)) ops
+
+/-- swap positions `i` and `i+1`. -/
+def swapAdj {α} (l : List α) (i : Nat) : List α :=
+  match l.drop i with
+  | a :: b :: rest => l.take i ++ b :: a :: rest
+  | _ => l
+
+/-- tuple comparison of `op_priority` keys. -/
+def keyLt (a b : Nat × Int) : Bool := decide (a.1 < b.1 ∨ (a.1 = b.1 ∧ a.2 < b.2))
+
+/-- `ready.sort(key=op_priority); ready[0]`: primary key the operation index, secondary the position
+in the new machine order (operations on the target machine) or the old start time (others). -/
+def rebuildChoose (jobs : Jobs) (old : List Entry) (target : Nat) (order : List (Nat × Nat))
+    (s : DState) : Option Nat :=
+  let prio : Nat → Nat × Int := fun j =>
+    let k := s.next j
+    (k, if jobs.mach j k = target then (order.idxOf (j, k) : Int) else startOf old (j, k))
+  firstBest (fun x b => keyLt (prio x) (prio b)) (readyJobs jobs s)
+
+/-- `_rebuild_schedule`. -/
+def rebuild (jobs : Jobs) (old : List Entry) (target : Nat) (order : List (Nat × Nat)) : List Entry :=
+  (dispatchWith jobs (rebuildChoose jobs old target order) (totalOps jobs) DState.init).sched
+
+/-- `for i in range(len(ops) - 1): … if new_makespan < makespan: … break` -/
+def firstImproving (jobs : Jobs) (S : List Entry) (mk : Int) (machine : Nat) (ops : List (Nat × Nat)) :
+    List Nat → Option (List Entry × Int)
+  | [] => none
+  | i :: is =>
+    let new := rebuild jobs S machine (swapAdj ops i)
+    if makespan new < mk then some (new, makespan new) else firstImproving jobs S mk machine ops is
+
+structure LState where
+  sched : List Entry
+  obj : Int
+  noImp : Nat
+
+/-- one iteration of the local search, `machine` = the value drawn by `rng.randrange(n_machines)`. -/
+def lsStep (jobs : Jobs) (st : LState) (machine : Nat) : LState :=
+  let ops := byStart st.sched (opsOn jobs machine)
+  if ops.length < 2 then st
+  else match firstImproving jobs st.sched st.obj machine ops (List.range (ops.length - 1)) with
+    | some (new, mk) => ⟨new, mk, 0⟩
+    | none => { st with noImp := st.noImp + 1 }
+
+def lsRun (jobs : Jobs) (maxNoImp : Nat) : List Nat → LState → LState
+  | [], st => st
+  | m :: ms, st =>
+    let st' := lsStep jobs st m
+    if st'.noImp ≥ maxNoImp then st' else lsRun jobs maxNoImp ms st'
+
+/-- `solve_job_shop(…, local_search=True)` from the dispatch schedule `init`, with the drawn machines. -/
+def localSearch (jobs : Jobs) (init : List Entry) (draws : List Nat) : LState :=
+  lsRun jobs Solvor.Gen.Sched.js_max_no_improve.toNat draws ⟨init, makespan init, 0⟩
+
 /-! ## Part 2: VRP bookkeeping -/
 
 structure VState where
